@@ -81,6 +81,20 @@ fn judge_files(files: &[(String, Vec<u8>)], t: &mut Tally, with_layouts: bool) -
         }
     }
     if with_layouts {
+        // images in which equal bodies / bodies that are prefixes of another are stored once
+        for longest_first in [false, true] {
+            let bytes = ref_pack::build_pack_shared(files, longest_first);
+            t.calls += 1;
+            match util::catch(|| fe9_arc::parse(&bytes).map_err(|e| e.to_string())) {
+                Err(p) => return Some((format!("panic@{}", p.location), format!("parse panicked on an image with shared bodies: {}", p.message))),
+                Ok(Err(e)) => return Some(("layout-rejected:shared-bodies".into(), format!("parse rejects a conforming image whose equal / prefix bodies are stored once: {}", e))),
+                Ok(Ok(m)) => {
+                    if as_vec(m) != files {
+                        return Some(("layout-dependence:shared-bodies".into(), "files read from an image with shared bodies differ".into()));
+                    }
+                }
+            }
+        }
         for l in ref_pack::pack_layouts() {
             let bytes = ref_pack::build_pack(files, &l);
             t.calls += 1;
@@ -119,6 +133,24 @@ fn extra_sets(tier: Tier) -> Vec<(String, Vec<(String, Vec<u8>)>)> {
             files.push((other.clone(), body(2, 0)));
         }
         v.push((format!("tricky name #{}", i), files));
+    }
+    let mut pairs: Vec<(String, String)> = vcore::collide::pairs().iter().map(|(_, a, b)| (a.clone(), b.clone())).collect();
+    pairs.extend(vcore::sjis::suffix_pairs());
+    for (i, (a, b)) in pairs.iter().enumerate() {
+        let mut files = vec![(a.clone(), body(0, 5)), (b.clone(), body(1, 33))];
+        let ab = format!("{}{}", a, b);
+        if ab != *a && ab != *b {
+            files.push((ab, body(2, 1)));
+        }
+        v.push((format!("name pair #{}", i), files));
+        v.push((format!("name pair #{} reversed", i), vec![(b.clone(), body(0, 0)), (a.clone(), body(1, 32))]));
+    }
+    // every character of the Shift-JIS domain in a name, 40 per archive
+    for (i, chunk) in vcore::sjis::domain().chunks(40).enumerate() {
+        v.push((format!("domain characters #{}", i), chunk.iter().enumerate().map(|(k, ch)| (format!("{}{}x", ch, k), body(k % 4, k % 3))).collect()));
+    }
+    for len in [0usize, 1, 31, 32, 33, 64, 100, 300, 5000] {
+        v.push((format!("equal and prefix bodies of {} bytes", len), vec![("one".to_string(), body(0, len)), ("two".to_string(), body(0, len)), ("prefix".to_string(), body(0, len / 2))]));
     }
     let (counts, lens, names) = tier.pick((300usize, 200usize, 300usize), (1500, 700, 1200));
     for n in 0..=counts {
